@@ -16,6 +16,8 @@ pub enum Step {
     Yield(u8),
     /// (future bodies) await an external one-shot event
     AwaitGate(GateId),
+    /// (future bodies) await whichever of two events fires first; the loser keeps the waker it was given
+    AwaitAny(GateId, GateId),
     /// block the running thread until the gate opens (a stalled job)
     BlockOn(GateId),
     OpenGate(GateId),
